@@ -260,10 +260,10 @@ per column, no column narrower than its natural width.  Any columns (fixed, capp
 (With the pad target repaired, or without a table `min_width`; see `old_expand_exact_fails`.) -/
 theorem table_expand_exact (fl : Flags) (t : Table) (maxWidth : Int) (ws0 : List Int) (hexp : t.expand = true)
     (hfl : fl.minWidthCapsExpand = false ∨ t.minWidth = none)
+    (hcols : t.columns ≠ [])
     (h0 : t.firstWidths fl maxWidth = some ws0) (hne : ws0 ≠ []) (hpos : ∀ w ∈ ws0, 1 ≤ w) (hfit : ws0.sum ≤ maxWidth) :
     ∃ ws, t.calcWidths fl maxWidth = some ws ∧ ws.sum = maxWidth ∧ ws.length = ws0.length ∧ ∀ p ∈ ws0.zip ws, p.1 ≤ p.2 := by
-  unfold Table.calcWidths
-  rw [h0]
+  rw [calcWidths_ne fl t maxWidth hcols, h0]
   simp only [show ¬ (ws0.sum > maxWidth) by omega, if_false]
   obtain ⟨r, h1, h2, h3, h4⟩ := padWidths_spec fl t ws0 ws0.sum maxWidth hne hpos
   refine ⟨r, h1, ?_, h2, h4⟩
@@ -289,7 +289,7 @@ theorem table_expand_exact_free (fl : Flags) (t : Table) (maxWidth : Int) (hexp 
   have hne0 : ws0 ≠ [] := by
     intro h; rw [h] at hl; simp at hl
     exact hne (List.eq_nil_of_length_eq_zero hl.symm)
-  obtain ⟨ws, h1, h2, h3, _⟩ := table_expand_exact fl t maxWidth ws0 hexp hfl h0 hne0 hp (by rw [h0']; exact hfit)
+  obtain ⟨ws, h1, h2, h3, _⟩ := table_expand_exact fl t maxWidth ws0 hexp hfl hne h0 hne0 hp (by rw [h0']; exact hfit)
   exact ⟨ws, h1, h2, by omega⟩
 
 /-- Witness: today `Table(expand=True, min_width=…)` with a small `min_width` does NOT expand — the pad target
@@ -336,8 +336,7 @@ theorem table_exact_collapsed (fl : Flags) (t : Table) (maxWidth : Int) (hnr : t
   have hover' : maxWidth < ws0.sum := by rw [h0']; exact hover
   obtain ⟨hsw, hsum, hrl, _⟩ := shrinkWidths_all_wrappable t maxWidth ws0 hl (fun w hw => by have := hp w hw; omega) hover' hmw hwrap
   have hst := hstable ws0 h0
-  unfold Table.calcWidths
-  rw [h0]
+  rw [calcWidths_ne fl t maxWidth hne, h0]
   simp only [show ws0.sum > maxWidth by omega, if_true, hsw, hst]
   have hr1 : ∀ w ∈ collapseWidths ws0 t.wrapable maxWidth, 1 ≤ w := by
     rw [← hst]; exact remeasure_pos t hfree _
@@ -380,8 +379,7 @@ theorem width_fits_of_keep (fl : Flags) (t : Table) (maxWidth : Int) (hnr : t.No
     have := hz (a[i], b[i]) (by rw [List.mem_iff_getElem]; exact ⟨i, by simp; omega, by simp⟩)
     have := ha a[i] (List.getElem_mem _)
     simp only at *; omega
-  unfold Table.calcWidths
-  rw [h0]
+  rw [calcWidths_ne fl t maxWidth hne, h0]
   by_cases hover : ws0.sum > maxWidth
   · simp only [hover, if_true]
     obtain ⟨hsw, hsum, hrl, _⟩ := shrinkWidths_all_wrappable t maxWidth ws0 hl (fun w hw => by have := hp w hw; omega)
